@@ -21,7 +21,8 @@ QUICK_CONFIGS = [("default", "none"), ("empty", "none"), ("colon", "nullglob"), 
                  ("default", "dotext"), ("empty", "noglob"), ("custom", "none"), ("default", "nullglob")]
 
 CONTEXTS = ["dq", "dqb", "arr", "pos", "subst", "assign", "elem", "case", "herestr", "dtest", "dtestq", "redir", "adj",
-            "unq_noifs", "unq_defifs", "assign_unq_case", "local", "export_env", "arr_star_noifs", "nested_dq"]
+            "unq_noifs", "unq_defifs", "assign_unq_case", "local", "export_env", "arr_star_noifs", "nested_dq",
+            "adj_unq_pre", "adj_unq_suf", "adj_unq_mix", "adj_unq_arr"]
 
 
 def hexs(b):
@@ -60,6 +61,11 @@ def script_for(n, ifs_mode, glob_mode):
         s.append('if [ -n "$R%d" ]; then echo x > "rd.%d/$%s"; fi' % (i, i, v))
         s.append('argdump -t adj.%d -- "p$%s""q${%s}r"' % (i, v, v))
         s.append('f() { local l=$%s; argdump -t local.%d -- "$l"; }; f' % (v, i))
+        # quoted value glued to *unquoted* literal text (--opt="$x", "$x".bak): the quoted part is still not a pattern
+        s.append('argdump -t adj_unq_pre.%d -- --pre="$%s"' % (i, v))
+        s.append('argdump -t adj_unq_suf.%d -- "$%s".suf' % (i, v))
+        s.append('argdump -t adj_unq_mix.%d -- p"${%s}"q\\*"$%s"' % (i, v, v))
+        s.append('a=("$%s" "$%s"); argdump -t adj_unq_arr.%d -- x"${a[@]}"y' % (v, w, i))
         s.append('E%d=$%s envdump -t export_env.%d E%d' % (i, v, i, i))
         s.append('argdump -t nested_dq.%d -- "${%s:-"$%s"}" "${U%d-"$%s"}"' % (i, v, w, i, v))
         # unquoted clause: configurations where splitting and globbing are the identity / pure blank splitting
@@ -108,6 +114,14 @@ def expected(ctx, v, w):
         return [b"p" + v + b"q" + v + b"r"]
     if ctx == "nested_dq":
         return [v if v else w, v]
+    if ctx == "adj_unq_pre":
+        return [b"--pre=" + v]
+    if ctx == "adj_unq_suf":
+        return [v + b".suf"]
+    if ctx == "adj_unq_mix":
+        return [b"p" + v + b"q*" + v]
+    if ctx == "adj_unq_arr":
+        return [b"x" + v, w + b"y"]
     if ctx == "unq_noifs":
         return [v] if v else []
     if ctx == "arr_star_noifs":
